@@ -625,8 +625,9 @@ pub fn exec(q: &mut AnyQ, m: &mut Model, st: &Step, cx: &mut Ctx) {
             let src = HintedSource::new(mkpairs(pairs), *hint);
             let rep = hint.report(pairs.len());
             q.extend(src);
-            let n2 = rep.1.unwrap_or(rep.0);
-            let rebuild = len0 > 1 && rep != (0, None) && (rep.1.is_some() || rep.0 != 0) && {
+            // coverage only: the crate decides on the lower bound of the report
+            let n2 = rep.0;
+            let rebuild = len0 > 1 && n2 != 0 && {
                 let lg = (usize::BITS - len0.leading_zeros() - 1) as usize;
                 2u128 * (len0 as u128 + n2 as u128) < n2 as u128 * lg as u128
             };
